@@ -552,6 +552,76 @@ func listenerExits(repo string, sites [][2]string) string {
 		"baseorbitdb/orbitdb.go monitorDirectChannel, stores/basestore/base_store.go pubSubChanListener", strings.Join(where, "; "), total)
 }
 
+// rangeLoopExits counts the statements that leave the `for … := range <rangeExpr>` loop(s) of a
+// function early: `break`/`goto`/`return` in the loop body (not inside a nested loop/switch/select for
+// an unlabelled break).
+func rangeLoopExits(repo, file, fn, rangeExpr, lean, doc string) string {
+	f, err := parser.ParseFile(fset, filepath.Join(repo, file), nil, 0)
+	if err != nil {
+		die("%s: %v", file, err)
+	}
+	fd := findFunc(f, fn)
+	if fd == nil {
+		die("%s: function %s not found", file, fn)
+	}
+	loops, total := 0, 0
+	ast.Inspect(fd.Body, func(n ast.Node) bool {
+		rs, ok := n.(*ast.RangeStmt)
+		if !ok || src(rs.X) != rangeExpr {
+			return true
+		}
+		loops++
+		var walk func(n ast.Node, nested bool)
+		walk = func(n ast.Node, nested bool) {
+			switch x := n.(type) {
+			case nil:
+			case *ast.FuncLit:
+			case *ast.ReturnStmt:
+				total++
+			case *ast.BranchStmt:
+				if (x.Tok == token.BREAK && (!nested || x.Label != nil)) || x.Tok == token.GOTO {
+					total++
+				}
+			case *ast.BlockStmt:
+				for _, b := range x.List {
+					walk(b, nested)
+				}
+			case *ast.IfStmt:
+				walk(x.Body, nested)
+				if x.Else != nil {
+					walk(x.Else, nested)
+				}
+			case *ast.ForStmt:
+				walk(x.Body, true)
+			case *ast.RangeStmt:
+				walk(x.Body, true)
+			case *ast.SwitchStmt:
+				walk(x.Body, true)
+			case *ast.TypeSwitchStmt:
+				walk(x.Body, true)
+			case *ast.SelectStmt:
+				walk(x.Body, true)
+			case *ast.CaseClause:
+				for _, b := range x.Body {
+					walk(b, nested)
+				}
+			case *ast.CommClause:
+				for _, b := range x.Body {
+					walk(b, nested)
+				}
+			case *ast.LabeledStmt:
+				walk(x.Stmt, nested)
+			}
+		}
+		walk(rs.Body, false)
+		return true
+	})
+	if loops == 0 {
+		die("%s: no `range %s` loop in %s", file, rangeExpr, fn)
+	}
+	return fmt.Sprintf("/-- %s (generated from %s, func %s, the `range %s` loop) -/\ndef %s : Nat := %d\n\n", doc, file, fn, rangeExpr, lean, total)
+}
+
 // unmarshalPairs lists, in source order, the (source bytes, destination) pairs of the json.Unmarshal
 // calls of a function, and the expression the heads to load are built from.
 func unmarshalPairs(repo, file, fn, lean string) string {
@@ -677,6 +747,10 @@ func main() {
 		{"GenFrame", func() string {
 			return fmt.Sprintf("/-- pubsub/directchannel/channel.go: DelimitedReadMaxSize -/\ndef delimitedReadMaxSize : Int := %s\n\n",
 				constantOf(repo, "pubsub/directchannel/channel.go", "DelimitedReadMaxSize")) + frameGuard(repo)
+		}},
+		{"GenWalk", func() string {
+			return rangeLoopExits(repo, "stores/replicator/replicator.go", "processItems", "next", "parentWalkExits",
+				"number of statements that leave the loop queuing the hashes named by a fetched entry before all of them have been looked at")
 		}},
 		{"GenConsts", func() string {
 			return fmt.Sprintf("/-- stores/replicator/replicator.go: batchSize -/\ndef batchSize : Int := %s\n\n", constantOf(repo, "stores/replicator/replicator.go", "batchSize")) +
